@@ -791,6 +791,10 @@ impl Xot {
                     }
                 }
             } else {
+                // the fragment tokenizer ends silently inside a start tag
+                if let Some(element_builder) = &builder.element_builder {
+                    return Err(ParseError::UnclosedTag(element_builder.span));
+                }
                 return Ok((span_info, builder));
             }
         }
